@@ -36,6 +36,8 @@ CONSTANTS Names,        \* ranks 1..k
 NewS == 101             \* value blob of a single-line value written by an edit
 NewM == 102             \* ... of a multi-line value
 NewVals == {NewS, NewM}
+BadV == 103             \* a value the setters REJECT (not deb822 syntax): ValueError, nothing changes
+RejectedVals == {BadV}
 NoIdx == -1
 
 VARIABLES doc, res
@@ -84,15 +86,51 @@ RSort(fs) == LET RECURSIVE go(_)
                                 IN RSeqOf(fs, {j \in Idx(fs) : fs[j].n = m}) \o go(ns \ {m})
              IN go({fs[j].n : j \in Idx(fs)})
 
+\* sort_fields(key=f): "same semantics as for sorted", i.e. the STABLE sort of the CURRENT field
+\* order by f(name).  A key function is represented by its table kt (kt[n] = key of name n, a
+\* sequence indexed by name rank; a name outside the table has key 0): fields whose names have
+\* equal keys - in particular all occurrences of one name - keep the relative order they have in
+\* the paragraph at the moment of the call, whatever happened before (moves, earlier sorts, edits).
+RKeyOf(kt, n)      == IF n \in DOMAIN kt THEN kt[n] ELSE 0
+\* positions of fs in sorted order
+RSortPosBy(fs, kt) == LET RECURSIVE go(_)
+                          go(ks) == IF ks = {} THEN <<>>
+                                    ELSE LET m == CHOOSE x \in ks : \A y \in ks : x <= y
+                                         IN RSeqOf([j \in Idx(fs) |-> j], {j \in Idx(fs) : RKeyOf(kt, fs[j].n) = m})
+                                            \o go(ks \ {m})
+                      IN go({RKeyOf(kt, fs[j].n) : j \in Idx(fs)})
+RSortBy(fs, kt)    == LET pos == RSortPosBy(fs, kt) IN [i \in Idx(fs) |-> fs[pos[i]]]
+\* what "stable sort" means, independently of how RSortPosBy computes it: pos is a permutation of
+\* the positions (nothing lost, nothing duplicated), keys ascend, ties keep their current order
+SortLawsFor(sorter(_, _), fs, kt) ==
+   LET pos == sorter(fs, kt) IN
+   /\ Len(pos) = Len(fs)
+   /\ {pos[i] : i \in Idx(pos)} = Idx(fs)
+   /\ \A a, b \in Idx(pos) : a < b =>
+          \/ RKeyOf(kt, fs[pos[a]].n) < RKeyOf(kt, fs[pos[b]].n)
+          \/ (RKeyOf(kt, fs[pos[a]].n) = RKeyOf(kt, fs[pos[b]].n) /\ pos[a] < pos[b])
+
+\* OPTIONAL fifth attribute of a field instance (C05): nl = "the field's text ends in a newline".
+\* Documents whose instances carry it model the one place where an edit may touch bytes outside
+\* the edited field: the last field of a document without a final newline has nl = FALSE, and
+\* placing a field after it supplies the newline (REnsureNl); nothing ever takes a newline away.
+\* Instances without the attribute (C10 configurations) behave exactly as before.
+RTracksNl(fs)   == fs # <<>> /\ "nl" \in DOMAIN fs[1]
+RTerm(f)        == IF "nl" \in DOMAIN f THEN [f EXCEPT !.nl = TRUE] ELSE f
+REnsureNl(fs)   == IF fs = <<>> THEN fs ELSE [fs EXCEPT ![Len(fs)] = RTerm(fs[Len(fs)])]
+RNewField(fs, n, s, v) == IF RTracksNl(fs) THEN [n |-> n, s |-> s, v |-> v, c |-> 0, nl |-> TRUE]
+                          ELSE [n |-> n, s |-> s, v |-> v, c |-> 0]
+
 \* assignment.  plain name: the first occurrence is replaced (keeping its spelling and its
 \* comment) and all other occurrences disappear; (name, i): that occurrence is replaced.
-\* an absent name is appended with the given spelling and no comment.
+\* an absent name is appended with the given spelling and no comment (the previously last field
+\* of the paragraph gets its missing newline); a written value always ends in a newline.
 RAssign(fs, key, s, v) ==
-   IF ~RHas(fs, key.n) THEN Append(fs, [n |-> key.n, s |-> s, v |-> v, c |-> 0])
+   IF ~RHas(fs, key.n) THEN Append(REnsureNl(fs), RNewField(fs, key.n, s, v))
    ELSE LET occ == ROcc(fs, key.n)
             tgt == IF key.i = NoIdx THEN occ[1] ELSE occ[key.i + 1]
             drop == IF key.i = NoIdx THEN RSet(occ) \ {tgt} ELSE {}
-            fs1 == [fs EXCEPT ![tgt].v = v]
+            fs1 == [fs EXCEPT ![tgt] = RTerm([fs[tgt] EXCEPT !.v = v])]
         IN RSeqOf(fs1, Idx(fs) \ drop)
 
 \* ------------------------------------------------------------------ document level
@@ -111,6 +149,7 @@ Fail(e)  == doc' = doc /\ res' = e
 Ok(d)    == doc' = d /\ res' = "ok"
 
 KeyArg(key) == <<key.n, key.i>>
+KtSeq(kt)   == [i \in 1..Cardinality(DOMAIN kt) |-> kt[i]]     \* key table as a sequence (Names = 1..k)
 
 \* ---- C05: dict interface
 Get(p, key) ==
@@ -119,9 +158,17 @@ Get(p, key) ==
          ELSE doc' = doc /\ res' = ToString(Para(p).fs[RResolve(Para(p).fs, key)[1]].v)
    /\ Edge("get", <<p, KeyArg(key)>>)
 
+\* a REJECTED value (v \in RejectedVals) raises ValueError and leaves every byte where it was - also
+\* the comment lines of the field it was meant for; with an unusable key as well, which of the two
+\* errors is reported is unspecified (the paragraph classes check in different orders)
 Assign(p, key, s, v) ==
-   /\ LET P == Para(p) IN
-      IF ~P.dup /\ key.i > 0 THEN Fail("KeyError")
+   /\ LET P == Para(p)
+          keyerr == \/ (~P.dup /\ key.i > 0)
+                    \/ (~RHas(P.fs, key.n) /\ key.i > 0)
+                    \/ (RHas(P.fs, key.n) /\ key.i # NoIdx /\ RResolve(P.fs, key) = <<>>)
+      IN
+      IF v \in RejectedVals THEN Fail(IF keyerr THEN "LookupOrValueError" ELSE "ValueError")
+      ELSE IF ~P.dup /\ key.i > 0 THEN Fail("KeyError")
       ELSE IF ~RHas(P.fs, key.n) /\ key.i > 0 THEN Fail("KeyError")
       ELSE IF RHas(P.fs, key.n) /\ key.i # NoIdx /\ RResolve(P.fs, key) = <<>> THEN Fail("IndexError")
       ELSE Ok(SetPara(p, RAssign(P.fs, key, s, v)))
@@ -163,6 +210,8 @@ Rel(p, key, ref, before) ==
    /\ Edge(IF before THEN "before" ELSE "after", <<p, KeyArg(key), KeyArg(ref)>>)
 
 SortFields(p) == Ok(SetPara(p, RSort(Para(p).fs))) /\ Edge("sort", <<p>>)
+\* sort_fields(key) with an arbitrary key function (given by its table, see RSortBy)
+SortBy(p, kt) == Ok(SetPara(p, RSortBy(Para(p).fs, kt))) /\ Edge("sortby", <<p, KtSeq(kt)>>)
 
 \* Deb822FileElement.insert(idx, para): the new paragraph becomes paragraph number idx (0-based);
 \* idx = 0 puts it in front of everything, an index past the end appends; a newline token
@@ -194,6 +243,13 @@ GoodKeys(p) == LET fs == Para(p).fs IN
    \cup {k \in [n : Names, i : 0..2] : RCount(fs, k.n) >= 2 /\ k.i < RCount(fs, k.n)}
    \cup {[n |-> MinName, i |-> i] : i \in 0..RCount(fs, MinName)}
 
+\* key functions worth exploring: every two-valued key that has a smallest class ("these names
+\* first, leave the rest alone", everything-ties, one-name-last ...) and the reversed name order
+\* (no ties).  The default key of sort_fields() is the identity table (action SortFields).
+MaxName == CHOOSE x \in Names : \A y \in Names : x >= y
+SortKeyTabs == {kt \in [Names -> {0, 1}] : \E n \in Names : kt[n] = 0}
+               \cup {[n \in Names |-> MaxName - n]}
+
 Init == doc \in Start /\ res = "ok"
 
 Next == \/ \E p \in 1..NParas :
@@ -204,10 +260,13 @@ Next == \/ \E p \in 1..NParas :
                    \/ ("del" \in Ops /\ Del(p, k))
                    \/ ("first" \in Ops /\ OrderFirst(p, k))
                    \/ ("last" \in Ops /\ OrderLast(p, k))
-                   \/ ("set" \in Ops /\ \E s \in SetSpells, v \in SetVals : Assign(p, k, s, v))
+                   \/ ("set" \in Ops /\ \E s \in SetSpells, v \in SetVals :
+                            /\ ((v \in RejectedVals) => (s = CHOOSE x \in SetSpells : TRUE)) = TRUE   \* the spelling is irrelevant for a rejected value
+                            /\ Assign(p, k, s, v))
                    \/ \E r \in GoodKeys(p) : \/ ("before" \in Ops /\ Rel(p, k, r, TRUE))
                                               \/ ("after" \in Ops /\ Rel(p, k, r, FALSE))
                 \/ ("sort" \in Ops /\ SortFields(p))
+                \/ ("sortby" \in Ops /\ \E kt \in SortKeyTabs : SortBy(p, kt))
         \/ \E n \in Names : \/ ("append" \in Ops /\ AppendPara(n))
                              \/ ("insert" \in Ops /\ \E idx \in 0..NParas : InsertPara(idx, n))
 
@@ -235,7 +294,28 @@ NoBlobDuplication ==
 CommentsStay ==
    [][\A x \in Fields(doc') : Inst(doc', x).c # 0 =>
           \E y \in Fields(doc) : Inst(doc, y).c = Inst(doc', x).c /\ Inst(doc, y).n = Inst(doc', x).n]_dvars
+\* the sort of the reference IS the stable sort of the current order, for every key table and
+\* every reachable paragraph; and sort_fields() is the special case "key = name"
+SortByLaws == \A p \in 1..NParas : \A kt \in SortKeyTabs \cup {[n \in Names |-> n]} :
+                 SortLawsFor(RSortPosBy, Para(p).fs, kt)
+DefaultSortIsByName == \A p \in 1..NParas : RSort(Para(p).fs) = RSortBy(Para(p).fs, [n \in Names |-> n])
 \* separators (free comments, blank lines) are never lost or reordered by paragraph-level edits
 Seps(d) == RSeqOf(d, {j \in Idx(d) : d[j].t = "s" /\ d[j].id # NewSep})
 SepsKept == [][Seps(doc') = Seps(doc)]_dvars
+\* C05, documents that track nl: every field that has a successor in dump order ends in a newline
+\* (two fields are never glued onto one line), whatever history of adds / deletes / replacements /
+\* rejected assignments led here
+DocWellFormed == \A x \in Fields(doc) :
+                    ("nl" \in DOMAIN Inst(doc, x) /\ ~Inst(doc, x).nl) => (x[1] = Len(doc) /\ x[2] = Len(doc[x[1]].fs))
+\* ... and a newline, once there, is never taken away again (the supplied newline is the ONLY
+\* permitted change outside the edited field): fields that survive a step keep nl = TRUE
+NlOnlySupplied ==
+   [][\A x \in Fields(doc), y \in Fields(doc') :
+         ("nl" \in DOMAIN Inst(doc, x) /\ Inst(doc, x).nl /\ Inst(doc, x).v = Inst(doc', y).v /\ Inst(doc, x).v < 100)
+            => Inst(doc', y).nl]_dvars
+\* document equality modulo the newline at the very end of the document (the statement leaves it
+\* open whether the final newline exists after an edit of the last field; trace validation)
+NormEnd(d) == IF d # <<>> /\ d[Len(d)].t = "p" /\ d[Len(d)].fs # <<>>
+              THEN [d EXCEPT ![Len(d)].fs = REnsureNl(d[Len(d)].fs)] ELSE d
+DocSame(d1, d2) == NormEnd(d1) = NormEnd(d2)
 =============================================================================
